@@ -86,15 +86,25 @@ Ltac inl := cbn [In]; tauto.
 Ltac fr l := repeat (first [rewrite V_setA | rewrite (frame_setV l) by (first [assumption | unfold l; inl])]).
 
 (* ---- packets as handles ---- *)
-Definition wfp (p : pkt) : Prop := 0 <= pseq p < 65536 /\ 0 <= pid p.
+Definition wfp (p : pkt) : Prop := 0 <= pseq p < 65536.
 Definition wfb (b : list (option pkt)) : Prop := forall q x, nnth q b = Some (Some x) -> wfp x.
+Lemma zz_nonneg i : 0 <= zz i.
+Proof. unfold zz. destruct (Z.ltb_spec i 0); lia. Qed.
 Lemma enc_pos p : wfp p -> 1 <= enc p.
-Proof. unfold wfp, enc. lia. Qed.
+Proof. unfold wfp, enc. pose proof (zz_nonneg (pid p)). lia. Qed.
+Lemma unzz_zz i : unzz (zz i) = i.
+Proof.
+  unfold unzz, zz. destruct (Z.ltb_spec i 0).
+  - replace (- 2 * i - 1) with (1 + 2 * (- i - 1)) by lia. rewrite Z.even_add_mul_2. cbn [Z.even].
+    replace (1 + 2 * (- i - 1) + 1) with ((- i) * 2) by lia. rewrite Z.div_mul by lia. lia.
+  - rewrite Z.even_mul. cbn [Z.even orb]. replace (2 * i) with (i * 2) by lia. apply Z.div_mul. lia.
+Qed.
 Lemma dec_enc p : wfp p -> dec (enc p) = p.
 Proof.
-  unfold wfp, dec, enc. intros [H1 H2]. destruct p as [s i]; cbn [pseq pid] in *. f_equal.
-  - replace (1 + s + 65536 * i - 1) with (s + i * 65536) by lia. rewrite Z.mod_add by lia. apply Z.mod_small. lia.
-  - replace (1 + s + 65536 * i - 1) with (s + i * 65536) by lia. rewrite Z.div_add by lia. rewrite Z.div_small by lia. lia.
+  unfold wfp, dec, enc. intros H1. destruct p as [s i]; cbn [pseq pid] in *. pose proof (zz_nonneg i) as Hz. f_equal.
+  - replace (1 + s + 65536 * zz i - 1) with (s + zz i * 65536) by lia. rewrite Z.mod_add by lia. apply Z.mod_small. lia.
+  - replace (1 + s + 65536 * zz i - 1) with (s + zz i * 65536) by lia. rewrite Z.div_add by lia.
+    rewrite Z.div_small by lia. cbn [Z.add]. apply unzz_zz.
 Qed.
 Lemma nth_encs b q : nnth q (map encs b) = option_map encs (nnth q b).
 Proof. apply nnth_map. Qed.
@@ -600,3 +610,33 @@ Example reorder_program_example :
   out_enc (exec 100 p_recv_reorder (st0 b 0 0 1 (mkPkt 2 20))) =
     ro_enc (RO [None; None; None; None] 3 0 [mkPkt 2 20; mkPkt 3 30; mkPkt 4 40] 0 KRun).
 Proof. split; vm_compute; reflexivity. Qed.
+
+(* ---- on every reachable state: the invariant of the receiver implies the hypotheses above ---- *)
+Lemma bufinv_wfb b a L : BufInv b a L -> wfb b.
+Proof.
+  intros HI q x Hq. destruct HI as [Hpow Ha HL Hhead Hseq]. pose proof (pow2B_range _ Hpow) as HB.
+  assert (Hlt : (q < Z.to_N (bsize b))%N).
+  { destruct (N.ltb_spec q (nlen b)) as [H|H]; [unfold bsize; lia|]. rewrite nnth_ge in Hq by assumption. discriminate. }
+  destruct (ix_surj (bsize b) a q Ha Hlt) as (j & Hj & Hix).
+  destruct (Z.eq_dec j 0) as [->|Hj0].
+  - unfold vw in Hhead. rewrite Hix, Hq in Hhead. discriminate.
+  - unfold wfp. rewrite (Hseq j x ltac:(lia)); [apply w16_range|]. unfold vw. rewrite Hix. exact Hq.
+Qed.
+
+Theorem reorder_program_on_reachable_states b a ng L p :
+  BufInv b a L -> 0 <= ng <= bsize b -> wf p ->
+  exists b' a' ng' out l k, reorder b a ng L p = RO b' a' ng' out l k /\
+    (exists f0, forall f, (f0 <= f)%nat ->
+       out_enc (exec f p_recv_reorder (st0 b a ng L p)) = ro_enc (RO b' a' ng' out l k)) /\
+    (forall f, exec f p_recv_reorder (st0 b a ng L p) = OFuel \/
+       out_enc (exec f p_recv_reorder (st0 b a ng L p)) = ro_enc (RO b' a' ng' out l k)).
+Proof.
+  intros HI Hng Hp. pose proof (reorder_spec b a ng L p HI Hp ltac:(lia)) as Hpost.
+  pose proof (pow2B_range _ (bi_pow _ _ _ HI)) as HB. pose proof (bi_a _ _ _ HI) as Ha. pose proof (bi_L _ _ _ HI) as HL.
+  assert (E : exists b' a' ng' out l k, reorder b a ng L p = RO b' a' ng' out l k).
+  { destruct (reorder b a ng L p) as [b' a' ng' out l k| |]; [do 6 eexists; reflexivity| |]; inversion Hpost. }
+  destruct E as (b' & a' & ng' & out & l & k & E). exists b', a', ng', out, l, k. split; [exact E|].
+  apply (reorder_program_is_the_model b a ng L p b' a' ng' out l k E); try lia.
+  - exact (bufinv_wfb _ _ _ HI).
+  - exact Hp.
+Qed.
